@@ -488,10 +488,13 @@ theorem blank_is_zero (tb : Table) (s : Str) (h : ∀ c ∈ s, isWs c = true) : 
 
 example : parse arithLevels " \t ".toList = some (.lit 0) := blank_is_zero _ _ (by decide)
 
-/-- `--1` / `++1` are parse errors (bash: two unary signs), while the spaced form is accepted. -/
-theorem double_sign_cex :
-    parse arithLevels "--1".toList = none ∧
-    parse arithLevels "- -1".toList = some (.un .minus (.un .minus (.lit 1))) := by decide
+/-- **A doubled sign is a pre-increment/pre-decrement only in front of a variable name**; before
+anything else (`--1`, `++(x)`, `---x`) it is two unary signs, as in bash. -/
+theorem double_sign_reads_two_signs :
+    parse arithLevels "--1".toList = some (.un .minus (.un .minus (.lit 1))) ∧
+    parse arithLevels "++(x)".toList = some (.un .plus (.un .plus (.ref (.var ['x'])))) ∧
+    parse arithLevels "-- x".toList = some (.incDec .preDec (.var ['x'])) ∧
+    parse arithLevels "---x".toList = some (.un .minus (.incDec .preDec (.var ['x']))) := by decide
 
 /-- An assignment is accepted as the right operand of any operator: `1+x=5` gets the tree of
 `1+(x=5)` (bash: "attempted assignment to non-variable"). -/
@@ -502,5 +505,50 @@ theorem assignment_as_operand_cex :
 theorem subscript_blank_accepted :
     parse arithLevels "A[ 1 ]".toList = some (.ref (.elem ['A'] (.lit 1))) ∧
     parse arithLevels "A[1\t]=5".toList = some (.assign (.elem ['A'] (.lit 1)) (.lit 5)) := by decide
+
+/-! ## 8. independence from the execution context
+
+Where an expression is evaluated (top level, a function whose locals hide globals, two functions deep,
+a subshell, `eval`, a trap handler, …) changes only *which bindings are visible*.  In the model the
+visible bindings are what `Env.get` returns (an inner scope is a prefix of the association list). -/
+
+/-- **Evaluation reads and writes only the visible bindings.**  Two environments that show the same
+bindings — whatever they hide underneath (a global shadowed by a local, a caller's variable shadowed
+by the callee's) — give the same value or error, and afterwards again show the same bindings; for
+every parser, depth and expression. -/
+theorem eval_depends_on_visible_bindings_only (P : Str → Option Expr) (d : Nat) (env env' : Env) (e : Expr)
+    (h : Eqv env env') :
+    (eval P d env e).2 = (eval P d env' e).2 ∧ Eqv (eval P d env e).1 (eval P d env' e).1 :=
+  (eval_visible_all P).1 d env e env' h
+
+/-- **What a function's locals hide does not matter**: under the same locals, two global scopes that
+agree on every name the locals do not bind give the same result. -/
+theorem hidden_bindings_do_not_matter (P : Str → Option Expr) (d : Nat) (loc g1 g2 : Env) (e : Expr)
+    (hg : ∀ n, loc.get n = none → g1.get n = g2.get n) :
+    (eval P d (loc ++ g1) e).2 = (eval P d (loc ++ g2) e).2 ∧
+    Eqv (eval P d (loc ++ g1) e).1 (eval P d (loc ++ g2) e).1 := by
+  apply eval_depends_on_visible_bindings_only
+  intro n
+  rw [Env.get_append, Env.get_append]
+  cases hl : Env.get loc n with
+  | some v => rfl
+  | none => exact hg n hl
+
+/-- a local `x=5` hiding a global `x=77` or a global `x=99`: `x * 2` is 10 either way -/
+example : (eval numP 0 ([(['x'], .scalar ['5'])] ++ [(['x'], .scalar ['7', '7'])]) (.bin .mul (.ref (.var ['x'])) (.lit 2))).2 =
+    (eval numP 0 ([(['x'], .scalar ['5'])] ++ [(['x'], .scalar ['9', '9'])]) (.bin .mul (.ref (.var ['x'])) (.lit 2))).2 :=
+  (hidden_bindings_do_not_matter numP 0 _ _ _ _ (by
+    intro n hn
+    simp only [Env.get, List.lookup] at hn ⊢
+    cases hx : (n == ['x']) <;> simp_all)).1
+
+/-- **Assignment through the environment updates the innermost binding of the name** and leaves the
+binding it hides untouched (the local, not the global of the same name). -/
+theorem assignment_updates_innermost_binding (loc g : Env) (n : Str) (v : Val) (h : loc.get n ≠ none) :
+    Env.set (loc ++ g) n v = Env.set loc n v ++ g :=
+  Env.set_append_of_bound loc g n v h
+
+example : Env.set ([(['x'], .scalar ['5'])] ++ [(['x'], .scalar ['7', '7'])]) ['x'] (.scalar ['6']) =
+    [(['x'], .scalar ['6']), (['x'], .scalar ['7', '7'])] := by decide
 
 end BrushVerif.C07
